@@ -5,6 +5,7 @@ import (
 	"go/token"
 	"go/types"
 	"sort"
+	"strconv"
 	"strings"
 
 	"verif/checker/eng"
@@ -53,6 +54,7 @@ func runC20(p *eng.Prog, r *eng.Report, tier string) {
 	c20SortsCopies(c, "C20.9")
 	c20ComparatorsAreOrders(c, "C20.10")
 	c20DecoderKeepsEveryValue(c, "C20.11")
+	c20ValuesOfTheFieldItself(c, "C20.12", f)
 	hname := "p1"
 	// ---- C20.4b the encoder's output buffer never overlaps the digest ----------
 	nenc := 0
@@ -883,7 +885,84 @@ func c20DecoderKeepsEveryValue(c *cx, id string) {
 				return true
 			})
 			c.r.Check(id, f, "decoded values stored", "E-taint: the form decoder stores the decoded <value/> list whole (the capabilities hash of a received form covers all of them)", w.Stmt.Pos(), bad == "", bad)
+			// verbatim: what is stored is the decode target's own []string field
+			// (the character data as the peer sent it), not something computed
+			// from it
+			targets := map[types.Object]bool{}
+			for _, cl := range f.Calls("encoding/xml.Decoder.Decode*") {
+				if len(cl.Args) > 0 {
+					if u, ok := ast.Unparen(cl.Args[0]).(*ast.UnaryExpr); ok && u.Op == token.AND {
+						if idn, ok := ast.Unparen(u.X).(*ast.Ident); ok {
+							targets[f.Info().ObjectOf(idn)] = true
+						}
+					}
+				}
+			}
+			verb := false
+			if sel, ok := ast.Unparen(w.RHS).(*ast.SelectorExpr); ok {
+				if idn, ok := ast.Unparen(sel.X).(*ast.Ident); ok && targets[f.Info().ObjectOf(idn)] {
+					verb = true
+				}
+			}
+			c.r.Check(id, f, "decoded values stored verbatim", "E-taint: what the form decoder stores as a field's values is the []string the XML decoder filled (the hash of a received form is computed over the character data as sent)", w.Stmt.Pos(), verb, "stores "+types.ExprString(w.RHS)+", which is not a field of the decode target")
+		}
+		// no value of a decoded field is rewritten afterwards
+		for _, w := range f.Writes() {
+			ix, ok := ast.Unparen(w.LHS).(*ast.IndexExpr)
+			if !ok {
+				continue
+			}
+			if cls, ok := f.FieldClass(ix.X); ok && cls == "form.field.value" {
+				c.r.Check(id, f, "decoded value rewritten", "E-taint: the form decoders never rewrite a decoded value (\"1\" stays \"1\": the capabilities hash is computed over the character data as sent)", w.Stmt.Pos(), false, "element store "+types.ExprString(w.LHS)+" = "+exprOrEmpty(w.RHS))
+			}
 		}
 	}
 	c.r.Floor(id, "stores to field.value in the form decoders", n, 1)
+}
+
+func exprOrEmpty(e ast.Expr) string {
+	if e == nil {
+		return "…"
+	}
+	return types.ExprString(e)
+}
+
+// c20ValuesOfTheFieldItself (C20.12): a data form may carry two fields with the
+// same var (malformed, but decodable from a peer's reply, and the property
+// quantifies over every input and every permutation of fields). The look-ups
+// of package form that take a name (Raw, Get, GetString, ...) return the FIRST
+// field of that name, so a value obtained through a computed name is the value
+// of "some field called like this one", not of the field that contributed the
+// name: the hash then covers the first duplicate twice and depends on the
+// order of the fields. In AppendHash and its closures every name-keyed look-up
+// of a form takes a constant name (FORM_TYPE); the values of a field come from
+// the field itself (form.FieldData.Raw in the ForFields callback).
+func c20ValuesOfTheFieldItself(c *cx, id string, f *eng.Fn) {
+	n := 0
+	var scan func(fn *eng.Fn)
+	scan = func(fn *eng.Fn) {
+		for _, cl := range fn.Calls("form.Data.*") {
+			cid := fn.CalleeID(cl)
+			switch cid {
+			case "form.Data.Raw", "form.Data.Get", "form.Data.GetString", "form.Data.GetStrings", "form.Data.GetBool", "form.Data.GetJID", "form.Data.GetJIDs", "form.Data.GetOptions":
+			default:
+				continue
+			}
+			if len(cl.Args) != 1 {
+				continue
+			}
+			n++
+			cs, isConst := fn.ConstStr(cl.Args[0])
+			arg := "computed name"
+			if isConst {
+				arg = strconv.Quote(cs)
+			}
+			c.r.Check(id, fn, "name-keyed look-up "+strings.TrimPrefix(cid, "form.Data.")+"("+arg+")", "P: a field's values are taken from the field itself; a look-up by name is used for constant names only (it returns the first field of that name)", cl.Pos(), isConst, "the values hashed under a field's name are those of the FIRST field with that var: with two fields of one var the first is hashed twice and the result depends on the order of the fields")
+		}
+		for _, l := range fn.Lits {
+			scan(l)
+		}
+	}
+	scan(f)
+	c.r.Floor(id, "name-keyed form look-ups in AppendHash", n, 2)
 }
